@@ -56,6 +56,8 @@ def diff_terms(got, want, path="", check_bind=True):
         elif g[0] in ("STR", "BYTES", "RAW", "MSGSET"):
             if check_bind and w[1] is not None and g[1] != w[1]:
                 return "%s: field #%d %s is bound to `%s`, schema says `%s`" % (path or "body", i, g[0], g[1], w[1])
+            if g[0] == "STR" and len(w) > 2 and w[2] is not None and len(g) > 2 and g[2] != w[2]:
+                return "%s: field #%d (%s) is a %s string, the protocol string is UTF-8 %s here" % (path or "body", i, g[1], g[2], w[2])
         elif g[0] == "SIZED":
             d = diff_terms([g[1]], [w[1]], path + "/sized", check_bind)
             if d:
@@ -218,12 +220,14 @@ def run(ctx):
     terms, env = W.encoder_terms(prog, em)
     endians |= env.endians
     arms = {}
+    raw_arms = {}
     for t in terms:
         if t[0] == "ALT":
             for c, b in t[1]:
                 for mag in (0, 1):
                     if c.replace(" ", "") == "message.magic==%d" % mag:
                         arms[mag] = W.collapse_alts(b)
+                        raw_arms[mag] = b
     for mag in (0, 1):
         got = arms.get(mag)
         problem = "no arm for magic %d" % mag if got is None else diff_terms(got, KS.MESSAGE[mag], check_bind=False)
@@ -234,6 +238,23 @@ def run(ctx):
                 # a bare local (the computed crc, the clock value substituted for a missing timestamp) is not compared
                 if w is not None and b != w and not (w == "message.timestamp" and b.isidentifier()):
                     problem = "fields bound to %s, expected %s" % (binds, want)
+        if not problem and mag == 1:
+            # the caller's timestamp is written whenever it is not None (0 is a legal timestamp): the clock may
+            # substitute only under the condition `message.timestamp is None`
+            ts_leaves = []
+
+            def collect(ts, cond):
+                for t in ts:
+                    if t[0] == "P" and t[1] == "INT64":
+                        ts_leaves.append((cond, t[2]))
+                    elif t[0] == "ALT":
+                        for c2, b2 in t[1]:
+                            collect(b2, c2)
+            collect(raw_arms.get(1, []), None)
+            direct = [c for c, b in ts_leaves if b == "message.timestamp"]
+            others = [(c, b) for c, b in ts_leaves if b != "message.timestamp"]
+            if not direct or any(c != "message.timestamp is None" for c, b in others):
+                problem = "timestamp leaf is bound to %s; the supplied timestamp must be written unless it `is None`" % ts_leaves
         r.check(not problem, "%s#format-%d" % (em.qname, mag), "message format %d: %s" % (mag, problem), where(em, em.node),
                 "brokers reject the message (CRC/size mismatch) or store a different key/value")
     ems = ctx.func(KCQ + "._encode_message_set")
@@ -350,6 +371,45 @@ def run(ctx):
             ok = ok and any(t.endswith(".error_code != 0") and not pol for t, pol in fh[n.id]) and norm(n.stmt.value).endswith(".api_versions")
     r.check(ok, "%s#table-or-zero" % hau.qname, "version table is not stored exactly on a successful discovery, 0 otherwise", where(hau, hau.node))
 
+    # ---- R9 the correlation id a request travels under is the one its bytes were encoded with
+    r = ctx.rule("R9", "every send site passes the correlation id with which the request bytes were encoded (no re-assignment in between)", 6, "A+B")
+    for f in sorted([x for x in prog.funcs.values() if x.module.name == "client"], key=lambda x: x.qname):
+        cf = ctx.cfg(f)
+        for n in cf.nodes:
+            for c in n.calls():
+                nm = call_name(c)
+                if nm == "_send_broker_unaware_request" and len(c.args) >= 2:
+                    ida, rqa = c.args[0], c.args[1]
+                elif nm == "_make_request_to_broker" and len(c.args) >= 3:
+                    ida, rqa = c.args[1], c.args[2]
+                else:
+                    continue
+                if not (isinstance(ida, ast.Name) and isinstance(rqa, ast.Name)) or (ida.id in f.params and rqa.id in f.params):
+                    continue
+                encs = [m for m in cf.nodes if m.kind == "stmt" and isinstance(m.stmt, ast.Assign) and any(
+                    isinstance(t, ast.Name) and t.id == rqa.id for t in m.stmt.targets) and isinstance(m.stmt.value, ast.Call)]
+                idefs = [m for m in cf.nodes if m.kind == "stmt" and isinstance(m.stmt, ast.Assign) and any(
+                    isinstance(t, ast.Name) and t.id == ida.id for t in m.stmt.targets)]
+                ok = len(encs) == 1 and bool(idefs)
+                why = "request bytes / id not defined by single assignments"
+                if ok:
+                    e = encs[0]
+                    call = e.stmt.value
+                    idarg = kwarg(call, "correlation_id", 1)
+                    ok = idarg is not None and norm(idarg) == ida.id
+                    why = "request is encoded with id `%s` but sent under `%s`" % (norm(idarg) if idarg is not None else None, ida.id)
+                    if ok:
+                        for d in idefs:
+                            if d.id in cf.reach([e.id]) and n.id in cf.reach([d.id], avoid=[e.id]):
+                                ok = False
+                                why = "`%s` is re-assigned (line %d) after the request bytes were encoded and before the send" % (ida.id, d.lineno)
+                        if not any(cf.dominates([d.id], e.id) for d in idefs):
+                            ok = False
+                            why = "id not assigned before the encode"
+                r.check(ok, "%s#send(%s,%s)" % (f.qname, ida.id, rqa.id), why, where(f, c),
+                        "retry after a failed attempt: the frame carries id N, the client awaits N+1; the broker's reply is "
+                        "discarded as unknown and the request times out")
+
     # ---- R7 tri-state discipline
     r = ctx.rule("R7", "_api_versions (None/0/table) is read outside the discovery functions only where None is handled", 1, "B")
     discovery = {"fetch_api_versions", "get_api_version", "_handle_api_version_update", "__init__"}
@@ -421,6 +481,13 @@ MUTANTS = [
     {"id": "v1-key-value-swapped", "file": "kafkacodec.py",
      "old": "                msg = struct.pack('>BBq', message.magic, message.attributes, message.timestamp)\n            msg += write_int_string(message.key)\n            msg += write_int_string(message.value)",
      "new": "                msg = struct.pack('>BBq', message.magic, message.attributes, message.timestamp)\n            msg += write_int_string(message.value)\n            msg += write_int_string(message.key)", "expect": "C04.R3"},
+    {"id": "timestamp-truthiness", "file": "kafkacodec.py",
+     "old": "            if message.timestamp is None:\n                ts = int(time.time() * 1000)\n                msg = struct.pack('>BBq', message.magic, message.attributes, ts)\n            else:\n                msg = struct.pack('>BBq', message.magic, message.attributes, message.timestamp)",
+     "new": "            ts = message.timestamp or int(time.time() * 1000)\n            msg = struct.pack('>BBq', message.magic, message.attributes, ts)", "expect": "C04.R3", "note": "seeded C04-1"},
+    {"id": "retry-new-id-old-bytes", "file": "client.py",
+     "old": "                log.warning(\"Timed out trying to get API versions from %r\", self)\n                api_version_failures += 1",
+     "new": "                log.warning(\"Timed out trying to get API versions from %r\", self)\n                requestId = self._next_id()\n                api_version_failures += 1",
+     "expect": "C04.R9", "note": "seeded C04-2"},
     {"id": "gzip-marked-snappy", "file": "kafkacodec.py", "old": "        return Message(magic, CODEC_GZIP, None, gzipped)", "new": "        return Message(magic, CODEC_SNAPPY, None, gzipped)", "expect": "C04.R4"},
     {"id": "version-not-clamped", "file": "kafkacodec.py", "old": "        if api_version >= 2:\n            req_api_version = 2\n            magic = 1",
      "new": "        if api_version >= 2:\n            req_api_version = api_version\n            magic = 1", "expect": "C04.R6"},
